@@ -1,5 +1,5 @@
 (* C20 -- lemmas about the triangle model (coq/Model/C20.v). *)
-From Coq Require Import ZArith List Bool Reals Lra Lia Permutation.
+From Coq Require Import ZArith List Bool Reals Lra Lia Permutation Sorted.
 From PAV Require Import Base.Res Base.Check Base.NumOps Base.Sum Model.C20 Model.C20Spec.
 Import ListNotations.
 Local Open Scope R_scope.
@@ -919,3 +919,145 @@ Lemma a_containing_spec_g (A : @atri ROps) (s : shape ROps) i :
   idx_in_range A = true ->
   (In i (a_containing A s) <-> exists t, nth_error (a_triangles A) i = Some t /\ shape_mask s t = true).
 Proof. intros _. apply a_containing_spec. Qed.
+
+(* ------------------------------------------------------------------ np.unique returns strictly increasing rows *)
+Section UniqueSorted.
+  Context {A : Type} (ltb eqb : A -> A -> bool).
+  Hypothesis eqb_eq : forall x y, eqb x y = true <-> x = y.
+  Hypothesis ltb_irrefl : forall x, ltb x x = false.
+  Hypothesis ltb_trans : forall x y z, ltb x y = true -> ltb y z = true -> ltb x z = true.
+  Hypothesis ltb_total : forall x y, ltb x y = false -> eqb x y = false -> ltb y x = true.
+  Let lt (x y : A) : Prop := ltb x y = true.
+
+  Lemma ins_sorted p l : StronglySorted lt l -> StronglySorted lt (ins ltb eqb p l).
+  Proof.
+    induction 1 as [|q l Hs IH Hq]; cbn [ins]; [repeat constructor|].
+    destruct (ltb p q) eqn:L.
+    - constructor; [constructor; assumption|]. constructor; [exact L|].
+      rewrite Forall_forall in *. intros x Hx. apply (ltb_trans p q x L). apply Hq. exact Hx.
+    - destruct (eqb p q) eqn:E; [constructor; assumption|].
+      constructor; [exact IH|]. rewrite Forall_forall in *. intros x Hx.
+      apply (in_ins ltb eqb eqb_eq) in Hx. destruct Hx as [->|Hx]; [apply ltb_total; assumption|apply Hq; exact Hx].
+  Qed.
+  Lemma unique_sorted l : StronglySorted lt (unique ltb eqb l).
+  Proof. unfold unique. induction l as [|x l IH]; cbn [fold_right]; [constructor|apply ins_sorted; exact IH]. Qed.
+  Lemma sorted_nodup l : StronglySorted lt l -> NoDup l.
+  Proof.
+    induction 1 as [|q l Hs IH Hq]; constructor; [|exact IH].
+    intros Hin. rewrite Forall_forall in Hq. specialize (Hq q Hin). unfold lt in Hq. rewrite ltb_irrefl in Hq. discriminate.
+  Qed.
+  Lemma unique_nodup l : NoDup (unique ltb eqb l).
+  Proof. apply sorted_nodup. apply unique_sorted. Qed.
+End UniqueSorted.
+
+Lemma idx3_order :
+  (forall x, idx3_ltb x x = false) /\
+  (forall x y z, idx3_ltb x y = true -> idx3_ltb y z = true -> idx3_ltb x z = true) /\
+  (forall x y, idx3_ltb x y = false -> idx3_eqb x y = false -> idx3_ltb y x = true).
+Proof.
+  unfold idx3_ltb, idx3_eqb, i0, i1, i2. repeat split.
+  - intros [[a b] c]. cbn [fst snd]. rewrite !Nat.ltb_irrefl, !Nat.eqb_refl. reflexivity.
+  - intros [[a b] c] [[d e] f] [[g h] i]. cbn [fst snd].
+    rewrite !orb_true_iff, !andb_true_iff, !orb_true_iff, !andb_true_iff, !Nat.ltb_lt, !Nat.eqb_eq. lia.
+  - intros [[a b] c] [[d e] f]. cbn [fst snd].
+    rewrite !orb_false_iff, !andb_false_iff, !orb_false_iff, !andb_false_iff,
+            !orb_true_iff, !andb_true_iff, !orb_true_iff, !andb_true_iff, !Nat.ltb_lt, !Nat.ltb_ge, !Nat.eqb_eq, !Nat.eqb_neq. lia.
+Qed.
+
+Lemma zpt_order :
+  (forall x, zpt_ltb x x = false) /\
+  (forall x y z, zpt_ltb x y = true -> zpt_ltb y z = true -> zpt_ltb x z = true) /\
+  (forall x y, zpt_ltb x y = false -> zpt_eqb x y = false -> zpt_ltb y x = true).
+Proof.
+  unfold zpt_ltb, zpt_eqb. repeat split.
+  - intros [a b]. cbn [fst snd]. rewrite !Z.ltb_irrefl, !Z.eqb_refl. reflexivity.
+  - intros [a b] [d e] [g h]. cbn [fst snd].
+    rewrite !orb_true_iff, !andb_true_iff, !Z.ltb_lt, !Z.eqb_eq. lia.
+  - intros [a b] [d e]. cbn [fst snd].
+    rewrite !orb_false_iff, !andb_false_iff, !orb_true_iff, !andb_true_iff, !Z.ltb_lt, !Z.ltb_ge, !Z.eqb_eq, !Z.eqb_neq. lia.
+Qed.
+
+Lemma pt_order :
+  (forall x : rpt, @pt_ltb ROps x x = false) /\
+  (forall x y z : rpt, @pt_ltb ROps x y = true -> @pt_ltb ROps y z = true -> @pt_ltb ROps x z = true) /\
+  (forall x y : rpt, @pt_ltb ROps x y = false -> @pt_eqb ROps x y = false -> @pt_ltb ROps y x = true).
+Proof.
+  unfold pt_ltb, pt_eqb. cbn [ltb eqb ROps]. repeat split.
+  - intros [a b]. cbn [fst snd].
+    rewrite orb_false_iff, andb_false_iff, !Rltb_false. split; [lra|right; lra].
+  - intros [a b] [d e] [g h]. cbn [fst snd].
+    rewrite !orb_true_iff, !andb_true_iff, !Rltb_true, !Reqb_true. lra.
+  - intros [a b] [d e]. cbn [fst snd].
+    rewrite !orb_false_iff, !andb_false_iff, !orb_true_iff, !andb_true_iff, !Rltb_true, !Rltb_false, !Reqb_true, !Reqb_false. lra.
+Qed.
+
+(* de-duplicated outputs contain no repeated rows *)
+Lemma a_neighborhood_rows_distinct (A : @atri ROps) :
+  NoDup (fst (a_neighborhood A)) /\ NoDup (snd (a_neighborhood A)).
+Proof.
+  destruct idx3_order as (I1 & I2 & I3). destruct pt_order as (P1 & P2 & P3).
+  unfold a_neighborhood, reindex. cbn [fst snd]. split.
+  - apply (unique_nodup idx3_ltb idx3_eqb idx3_eqb_eq I1 I2 I3).
+  - apply (unique_nodup _ _ pt_eqb_eq P1 P2 P3).
+Qed.
+Lemma reindex_vertices_distinct (ts : list rtri) : NoDup (snd (reindex ts)).
+Proof. destruct pt_order as (P1 & P2 & P3). apply (unique_nodup _ _ pt_eqb_eq P1 P2 P3). Qed.
+Lemma c_neighborhood_coords_distinct {O : NumOps} (S : cs O) : NoDup (c_coords (c_neighborhood S)).
+Proof. destruct zpt_order as (Z1 & Z2 & Z3). apply (unique_nodup zpt_ltb zpt_eqb zpt_eqb_eq Z1 Z2 Z3). Qed.
+
+(* ------------------------------------------------------------------ up-sampling distinct cells gives distinct cells *)
+Lemma NoDup_app_intro {A} (l1 l2 : list A) :
+  NoDup l1 -> NoDup l2 -> (forall x, In x l1 -> In x l2 -> False) -> NoDup (l1 ++ l2).
+Proof.
+  induction 1 as [|a l1 Ha Hl IH]; intros H2 Hd; cbn [app]; [exact H2|].
+  constructor.
+  - rewrite in_app_iff. intros [H|H]; [contradiction|]. apply (Hd a); cbn; auto.
+  - apply IH; auto. intros x Hx. apply Hd. cbn. auto.
+Qed.
+
+Lemma NoDup_map_filter {A B} (f : A -> B) (p : A -> bool) l :
+  (forall x y, f x = f y -> x = y) -> NoDup l -> NoDup (map f (filter p l)).
+Proof.
+  intros Hinj Hl. apply FinFun.Injective_map_NoDup; [exact Hinj|]. apply NoDup_filter. exact Hl.
+Qed.
+
+Local Opaque Z.mul Z.add.
+Lemma child_offset_injective (d : zpt) (c1 c2 : zpt) : zadd (dbl c1) d = zadd (dbl c2) d -> c1 = c2.
+Proof.
+  destruct c1 as [x1 y1], c2 as [x2 y2], d as [dx dy]. unfold zadd, dbl. cbn [fst snd].
+  intros E. injection E as Ex Ey. f_equal; lia.
+Qed.
+Lemma dbl_injective (c1 c2 : zpt) : dbl c1 = dbl c2 -> c1 = c2.
+Proof.
+  destruct c1 as [x1 y1], c2 as [x2 y2]. unfold dbl. cbn [fst snd]. intros E. injection E as Ex Ey. f_equal; lia.
+Qed.
+
+Ltac block_clash :=
+  match goal with
+  | H1 : exists c, In c _ /\ _ = true /\ ?x = _, H2 : exists c, In c _ /\ _ = true /\ ?x = _ |- False =>
+      let c1 := fresh "c" in let c2 := fresh "c" in
+      let x1 := fresh "x" in let y1 := fresh "y" in let x2 := fresh "x" in let y2 := fresh "y" in
+      destruct H1 as [c1 [_ [P1 E1]]]; destruct H2 as [c2 [_ [P2 E2]]];
+      rewrite E1 in E2; clear E1; destruct c1 as [x1 y1], c2 as [x2 y2];
+      unfold zadd, dbl in E2; cbn [fst snd] in E2; injection E2 as Ex Ey;
+      try rewrite negb_true_iff in P1; try rewrite negb_true_iff in P2;
+      first
+      [ exfalso; lia
+      | assert (Fx : x2 = x1) by lia; assert (Fy : y2 = y1) by lia; subst x2 y2; congruence
+      | assert (Fx : x2 = (x1 + 1)%Z) by lia; assert (Fy : y2 = y1) by lia; subst x2 y2;
+        rewrite flip_adjacent, P1 in P2; discriminate
+      | assert (Fx : x1 = (x2 + 1)%Z) by lia; assert (Fy : y2 = y1) by lia; subst x1 y2;
+        rewrite flip_adjacent, P2 in P1; discriminate ]
+  end.
+
+Lemma c_up_sample_coords_distinct {O : NumOps} (h : T O) (S : cs O) :
+  NoDup (c_coords S) -> NoDup (c_coords (c_up_sample h S)).
+Proof.
+  intros HN. cbn [c_up_sample c_coords].
+  repeat (apply NoDup_app_intro);
+    try (apply NoDup_map_filter; [first [exact dbl_injective | intros c1 c2; apply child_offset_injective]|exact HN]).
+  all: intros x; rewrite ?in_app_iff, ?in_map_filter; intros H1 H2.
+  all: repeat match goal with H : _ \/ _ |- _ => destruct H as [H|H] end.
+  all: block_clash.
+Qed.
+Local Transparent Z.mul Z.add.
